@@ -9,3 +9,7 @@ for _f in sorted(glob.glob(os.path.join(_D, "C*.json"))):
         REGISTRY[os.path.basename(_f)[:-5]] = json.load(_h)
 NOT_APPLICABLE = {}
 HOOK_COMMITS = ["c2e274d"]
+
+# Monitors that are finished (silent on the repaired tree over seeds 1..5, sensitivity validated) and
+# therefore claimed in MANIFEST.json.  Fragments not listed here are still under construction.
+READY = ["C01", "C14"]
